@@ -329,7 +329,15 @@ func (s *cutState) res(v ssa.Value) ssa.Value {
 }
 
 // RunCut performs the search.
-func RunCut(sp *CutSpec) CutResult {
+func RunCut(sp0 *CutSpec) CutResult {
+	// the cut predicate also accepts facts implied by the outcome of in-module helpers (implied.go)
+	spc := *sp0
+	sp := &spc
+	savedActive, savedBase := activeCut, activeBase
+	activeBase = sp.Cut
+	sp.Cut = expandFP(sp.Cut)
+	activeCut = sp.Cut
+	defer func() { activeCut, activeBase = savedActive, savedBase }()
 	fn := sp.Fn
 	var r CutResult
 	if fn == nil || len(fn.Blocks) == 0 {
@@ -580,8 +588,15 @@ func (c *Ctx) Cut(sp CutSpec) {
 	if min < 0 {
 		min = 0
 	}
+	lostStart := sp.Start != nil && sp.StartAfter == nil && r.Starts == 0
+	if (lostStart || (!r.Capped && r.Targets >= min && r.Violated)) && sp.StartAfter == nil && len(sp.StartEdges) == 0 && sp.EventInstr == nil && sp.EventEdge == nil {
+		if h, ok := cutThroughHelper(sp); ok {
+			c.add("discharged", rule, name, sp.Label, pos, "holds inside the helper "+h+" (parameters read as the arguments), and the function reaches its targets only past the helper's acceptance", r.States)
+			return
+		}
+	}
 	switch {
-	case sp.Start != nil && sp.StartAfter == nil && r.Starts == 0:
+	case lostStart:
 		c.add("violated", rule, name, sp.Label, pos, "anchor lost: no branch edge in the function carries the start condition", r.States)
 	case r.Capped:
 		o := c.add("undecided", rule, name, sp.Label, pos, "state cap exceeded", r.States)
@@ -614,6 +629,9 @@ func SuccessReturn(idx int, guard FP) func(ssa.Instruction, resolver) bool {
 		if definitelyNonNil(v) || pinnedAs(v, "nonnil") {
 			return false
 		}
+		if passThroughCut(v, "nil", guard) {
+			return false
+		}
 		if guard != nil && guard(Fact{Op: "nil", X: v}) {
 			return false
 		}
@@ -636,6 +654,9 @@ func TrueReturn(idx int, guard FP) func(ssa.Instruction, resolver) bool {
 			return b
 		}
 		if pinnedAs(v, "false") {
+			return false
+		}
+		if passThroughCut(v, "true", guard) {
 			return false
 		}
 		if guard != nil {
